@@ -195,6 +195,112 @@ func init() {
 			return true
 		})
 		fmt.Fprintf(b, "Definition c07_clone_copies_node_lists : bool := %v.\n", deep == 2)
+		// every slice- or map-typed field of every struct reachable from Data is assigned a copy
+		// in the struct's clone method (Data.Clone, T.clone): the model treats everything a
+		// *Data reaches as owned by that value
+		structs := map[string]*ast.StructType{}
+		for _, f := range p.files {
+			for _, d := range f.Decls {
+				gd, ok := d.(*ast.GenDecl)
+				if !ok || gd.Tok != token.TYPE {
+					continue
+				}
+				for _, sp := range gd.Specs {
+					ts := sp.(*ast.TypeSpec)
+					if st, ok := ts.Type.(*ast.StructType); ok {
+						structs[ts.Name.Name] = st
+					}
+				}
+			}
+		}
+		var elemIdent func(e ast.Expr) string
+		elemIdent = func(e ast.Expr) string {
+			switch x := e.(type) {
+			case *ast.Ident:
+				return x.Name
+			case *ast.ArrayType:
+				return elemIdent(x.Elt)
+			case *ast.MapType:
+				return elemIdent(x.Value)
+			case *ast.StarExpr:
+				return elemIdent(x.X)
+			}
+			return ""
+		}
+		cloneOf := func(T string) *ast.FuncDecl {
+			want := "clone"
+			if T == "Data" {
+				want = "Clone"
+			}
+			for _, f := range p.files {
+				for _, d := range f.Decls {
+					fd, ok := d.(*ast.FuncDecl)
+					if !ok || fd.Name.Name != want || fd.Recv == nil || len(fd.Recv.List) != 1 {
+						continue
+					}
+					t := fd.Recv.List[0].Type
+					if st, ok := t.(*ast.StarExpr); ok {
+						t = st.X
+					}
+					if id, ok := t.(*ast.Ident); ok && id.Name == T {
+						return fd
+					}
+				}
+			}
+			return nil
+		}
+		if _, ok := structs["Data"]; !ok {
+			die("C07: type Data not found")
+		}
+		seen := map[string]bool{"Data": true}
+		queue := []string{"Data"}
+		var crow []string
+		allDeep := true
+		for len(queue) > 0 {
+			T := queue[0]
+			queue = queue[1:]
+			fd := cloneOf(T)
+			for _, fl := range structs[T].Fields.List {
+				if n := elemIdent(fl.Type); n != "" {
+					if _, ok := structs[n]; ok && !seen[n] {
+						seen[n] = true
+						queue = append(queue, n)
+					}
+				}
+				_, isSlice := fl.Type.(*ast.ArrayType)
+				_, isMap := fl.Type.(*ast.MapType)
+				if !isSlice && !isMap {
+					continue
+				}
+				for _, nm := range fl.Names {
+					copied := false
+					if fd != nil {
+						ast.Inspect(fd, func(n ast.Node) bool {
+							if as, ok := n.(*ast.AssignStmt); ok {
+								for _, l := range as.Lhs {
+									if s, ok := l.(*ast.SelectorExpr); ok && s.Sel.Name == nm.Name {
+										if id, ok := s.X.(*ast.Ident); ok && id.Name == "other" {
+											copied = true
+										}
+									}
+								}
+							}
+							return true
+						})
+					}
+					if !copied {
+						allDeep = false
+					}
+					crow = append(crow, fmt.Sprintf("(* %s.%s *) %v", T, nm.Name, copied))
+				}
+			}
+		}
+		sort.Strings(crow)
+		if len(crow) < 8 {
+			die("C07: found only %d slice/map fields reachable from Data", len(crow))
+		}
+		b.WriteString("Definition c07_clone_fields_copied : list bool :=\n  [ " + strings.Join(crow, "\n  ; ") + " ].\n")
+		fmt.Fprintf(b, "Definition c07_clone_all_deep : bool := %v.\n", allDeep)
 		sn := p.funcDecl("Snapshot", "storeFSM")
 		fmt.Fprintf(b, "Definition c07_snapshot_clones : bool := %v.\n", sn != nil && containsCall(sn, "Clone"))
 	})
